@@ -103,6 +103,7 @@ func (s *dsys) linCons() []linexp {
 	for _, e := range s.eqs {
 		out = append(out, e, linexp{co: map[string]int64{}}.addScaled(e, -1))
 	}
+	out = append(out, s.ineqs...)
 	return out
 }
 
